@@ -716,6 +716,32 @@ def call_histories(ctx, binp, events, ops, module, what, chunk=None, extra_env=N
             for h in gen:
                 for c in h["calls"]:
                     items.append(dict(op=op, mode=c["mode"], **{"in": g[c["i"] - 1]["in"]}))
+    # failure histories (spec/CallFailure.tla): every kind of rejected call seen in the traces, followed by accepted calls
+    fgen = read_ndjson(generate(ctx, "CallFailureGen", name="G_CallFailureGen"))
+    nfail = 0
+    for op in ops:
+        cand = [e for e in events if e["op"] == op and not e.get("par") and isinstance(e.get("in"), dict) and not e["in"].get("par")
+                and isinstance(e.get("out"), dict) and e["out"].get("panic", "") == "" and (select is None or select(e))]
+        acc, rej = [], {}
+        for e in cand:
+            if e["out"].get("ok") is True and len(acc) < 2 and all(digest(e["in"]) != digest(x["in"]) for x in acc):
+                acc.append(e)
+            elif e["out"].get("ok") is False:
+                rej.setdefault(str(e["out"].get("err", "")), []).append(e)
+        if len(acc) < 2 or not rej:
+            continue
+        kinds = sorted(rej)
+        picked = [rej[k][0] for k in kinds][:4]
+        if len(kinds) == 1:                       # no error kinds reported: a spread of the rejected inputs instead
+            lst = rej[kinds[0]]
+            picked = [lst[0], lst[len(lst) // 3], lst[2 * len(lst) // 3], lst[-1]]
+            picked = [x for i, x in enumerate(picked) if all(digest(x["in"]) != digest(y["in"]) for y in picked[:i])]
+        for r_ in picked:
+            for h in fgen:
+                for pos, sym in enumerate(h["calls"]):
+                    src = r_ if sym == "r" else acc[0] if sym == "v1" else acc[1]
+                    items.append(dict(op=op, mode=("keep" if pos % 2 == 0 else "own"), **{"in": src["in"]}))
+                    nfail += 1
     if not items:
         ctx.skipped.append("caller histories: no three recorded inputs of one shape for %s" % ", ".join(ops))
         return
@@ -728,7 +754,8 @@ def call_histories(ctx, binp, events, ops, module, what, chunk=None, extra_env=N
     for i, e in enumerate(ev):
         e["t"], e["i"] = 1, i + 1
     note_events(ctx, ev, keep=0)
-    ctx.legs.setdefault("G", []).append(dict(module="CallHistoryGen", histories=len(gen), calls=len(items), ops=list(ops)))
+    ctx.legs.setdefault("G", []).append(dict(module="CallHistoryGen+CallFailureGen", histories=len(gen), failure_histories=len(fgen), calls=len(items),
+                                             calls_in_failure_histories=nfail, ops=list(ops)))
     bad = validate_trace(ctx, module, ev, chunk=(10 ** 9 if stateful else chunk), label="T_call_histories", stateful=stateful)
     if not bad:
         return
@@ -756,3 +783,10 @@ def call_history_model(ctx):
         if "Invariant Correct is violated" not in r["out"]:
             raise Infra("caller-history model: the flawed implementation %s is not exposed within the generated depth" % impl)
     ctx.notes.append("caller-history model: honest implementation correct to depth 3; memoByRef, cacheEntry and pool each violate Correct within depth 3")
+    # what a rejected call may leave behind (CallFailure): honest correct; scratch given back dirty / twice on an error path exposed
+    model_check(ctx, "CallFailure", cfg="CallFailure_honest", name="M_CallFailure_honest", timeout=300)
+    for impl in ("dirtyOnError", "doubleRelease"):
+        r = tlc(ctx, "CallFailure", cfg="CallFailure_" + impl, workers=2, name="M_CallFailure_" + impl, check_ok=False, count=False)
+        if "Invariant Correct is violated" not in r["out"]:
+            raise Infra("failure-history model: the flawed implementation %s is not exposed within the generated depth" % impl)
+    ctx.notes.append("failure-history model: honest implementation correct to depth 3; dirtyOnError and doubleRelease violate Correct by <<rejected, valid>>")
